@@ -10,24 +10,33 @@ RULE = ('enumerated: a rejection / crash / nothing at every position of every ch
         'value, None, falsy; required or not; value_type in None,int,float,bool,str,list,dict; chains of 0-3 recording validators that map, '
         'return None, return a falsy constant, reject or crash; duplicate and out-of-signature declarations as near misses), strict, '
         'ignore_input, calls with every prefix length, shuffled keywords, omissions, None, falsy values, surplus, a name passed twice, the '
-        'same object twice, a keyword called self.  Plus Flask sources (FlaskJson/Form/Get/Header/PathParameter under app.test_request_context: JSON body, form, query string, headers; the strict all-JSON surplus-key rule).  non-trivial = the call carries an argument or a Parameter is declared')
+        'same object twice, a keyword called self; ordinary parameters called args, kwargs, cls, and self in a non-first position; a VAR_POSITIONAL '
+        'parameter spelled *args or *rest (enumerated: x a Parameter declared for that name or not x spare Parameter x 0-2 surplus positionals x strict x mode).  '
+        'Plus HISTORIES (scenarios): 2-4 sequential calls on ONE decorated function object (state kept between calls), sometimes a second function '
+        'object sharing the Parameter objects, with RE-ENTRANT validators: a recording validator, on a chosen invocation, calls the same (or the other) '
+        'decorated function with other arguments before it answers (nesting depth up to 3); enumerated: outer / inner call omitting a required or '
+        'defaulted parameter in every combination x which validator re-enters x same / second function x call styles x mode x strict, followed by a '
+        'sequential repetition of the outer call; every call of a history is judged by the same gate oracle as a single call.  Plus Flask sources (FlaskJson/Form/Get/Header/PathParameter under app.test_request_context: JSON body, form, query string, headers; the strict all-JSON surplus-key rule).  non-trivial = the call carries an argument or a Parameter is declared')
 EXHAUSTIVE = {'quick': False, 'thorough': False}
 ASSUMPTIONS = ['validators raise ValidatorException to reject (any other exception propagates unchanged: modelled as `crash`)',
                'convert_value is an abstract step here: its results on the literals used are a static table in the harness (its own contract is C14)',
+               'no default value or annotation of the decorated function whose text contains `*args`, and a VAR_POSITIONAL parameter whose name does not merely begin with `args` (the code tests \'*args\' in str(signature))',
+               'overlapping calls are exercised as re-entrant (nested) calls on one thread, not with threads',
                'Flask is installed (the trailing strict block of _wrapper_content touches the request proxy when every Parameter is a FlaskJsonParameter, also when there is none)']
 TRUSTED = ['Python call binding (positional / keyword / defaults / *args) is modelled (`bindCall`) and exercised on every case, not verified',
            'inspect.signature(...).bind_partial is modelled (`bindPartial`) and exercised, not verified']
 
 
 def cases(rng, tier):
-    out = V.gate_enum(rng) + V.one_param_cascade(rng) + V.surplus_enum(rng)
-    out += V.random_cases(rng, 50000 if tier == 'quick' else 240000, allow_varargs=True)
+    out = V.gate_enum(rng) + V.one_param_cascade(rng) + V.surplus_enum(rng) + V.varpos_enum(rng) + V.reentrant_enum(rng)
+    out += V.random_cases(rng, 44000 if tier == 'quick' else 240000, allow_varargs=True)
+    out += V.scenario_cases(rng, 3000 if tier == 'quick' else 20000, allow_varargs=True)
     out += V.flask_cases(rng, 4000 if tier == 'quick' else 30000)
     return out
 
 
 def search(rng, tier, near):
-    return V.random_cases(rng, 30000, allow_varargs=True, origin='search')
+    return V.random_cases(rng, 24000, allow_varargs=True, origin='search') + V.scenario_cases(rng, 3000, allow_varargs=True, origin='search')
 
 
 run_impl = V.run_impl
@@ -35,10 +44,13 @@ extra_coverage = V.extra_coverage
 
 
 def judge(case, impl, model):
+    if 'calls' in case['c']:
+        return V.judge_scenario(case, impl, model, judge)        # every call of the history is judged like a single call
     corr, why = V.correspondence(case, impl, model)
     pf, finding = V.pfail_gate(case, impl, model), None
     if isinstance(pf, tuple):
-        # the recorded region (keyword `self` on a plain function); a finding only where the model reproduces the implementation
-        pf, finding = pf[1], ('selfKeywordBypassesGate' if corr else None)
+        # a recorded region (keyword `self` on a plain function; VAR_POSITIONAL parameter not spelled `*args`); a finding only
+        # where the model reproduces the implementation
+        pf, finding = pf[1], (pf[0].split(':', 1)[1] if corr else None)
     return {'corr': corr, 'why': why, 'pfail': pf, 'finding': finding,
             'nontrivial': V.nontrivial(case, impl), 'tag': V.tag_of(case, impl)}
